@@ -220,7 +220,7 @@ func ruleHeaderBlockEmitters(p *Prog, r *Out) {
 			if x == "err:=c.writeHeaderBlock(fr,h)" {
 				lo, hi := false, false
 				for _, y := range t[:i] {
-					if y == "c.bwLck.Lock()" {
+					if y == "c.bwLck.Lock()" || y == "c.lockWrites()" && p.lockWrappers()["(*Conn).lockWrites"] == "Conn.bwLck" {
 						lo = true
 					}
 					if y == "c.bwLck.Unlock()" {
